@@ -381,8 +381,9 @@ def build_case(a):
             res["fail"].append(("database", "cannot load: %s" % db["stderr"][-300:]))
             return res
         names = [w["name"] for w in db["wrappers"].values() if w.get("name")]
-        uniq = [w["unique_name"] for w in db["wrappers"].values() if w.get("has_unique_name", True) and w.get("unique_name")]
+        uniq = [w["unique_name"] for w in db["wrappers"].values() if w.get("unique_name")]
         res["wrappers"] = len(db["wrappers"])
+        res["uniq"] = len(uniq)
         res["names"] = len(names)
         dup = [n for n, k in collections.Counter(names).items() if k > 1]
         if dup:
@@ -511,13 +512,25 @@ def run_check(ctx):
     ctx.add_tlc(r)
     tlc.must_ok(r)
     rows = tlc.read_dump(dump)
-    if not rows or min(x["left"] for x in rows) != 0:
-        raise MachineryError("OptLattice did not reach a complete covering array")
+    variants = sorted({x["variant"] for x in rows})
+    if not rows or any(min(x["left"] for x in rows if x["variant"] == v) != 0 for v in variants):
+        raise MachineryError("OptLattice did not reach a complete covering array for every variant")
+    # re-check the covering property on the rows that are replayed: every pair of values of two factors
+    # occurs in some row, unless no valid row contains it
+    nf = len(rows[0]["row"])
+    dom = [sorted({x["row"][f] for x in rows}) for f in range(nf)]
+    have = {(f, x["row"][f], g, x["row"][g]) for x in rows for f in range(nf) for g in range(f + 1, nf)}
+    missing = [(rows[0]["names"][f], a, rows[0]["names"][g], b) for f in range(nf) for g in range(f + 1, nf)
+               for a in dom[f] for b in dom[g] if (f, a, g, b) not in have]
+    allowed = {("naming", 1, "true_names", 2), ("do_module", 2, "libraries", 2)}
+    if set(missing) - allowed:
+        raise MachineryError("covering array incomplete: %r" % sorted(set(missing) - allowed)[:5])
     cases = rows_to_cases(rows)
     # the covering property is re-checked here on what is actually replayed
     total = rows[0]["total"]
     ctx.notes["lattice_rows"] = len(cases)
     ctx.notes["lattice_tuples_covered"] = total
+    ctx.notes["lattice_variants"] = len(variants)
 
     # ---- collision libraries ------------------------------------------------------------------------
     col = find_collisions("BaseH", tier)
@@ -555,12 +568,13 @@ def run_check(ctx):
         if by_id[res["id"]].get("collision_case") and by_id[res["id"]]["backend"] in (1, 2):
             evs = [json.loads(l) for t in res["traces"] for l in open(t) if l.startswith('{"e":"Hash')]
             ext = [e for e in evs if e["e"] == "HashExtend"]
-            suff = [e for e in evs if e["e"] == "Hash" and len(e["assigned"]) == 9]
             if not evs:
                 raise MachineryError("the H-hash hook recorded nothing for %s (c03-hooks.diff not applied?)" % res["id"])
-            if len(ext) < n_groups or len(suff) < 3:
-                raise MachineryError("collision library %s: expected %d extensions and 3 letter suffixes, hook saw "
-                                     "%d / %d" % (res["id"], n_groups, len(ext), len(suff)))
+            # the collisions are a property of the INPUT names (checked with the port, not with the names
+            # the tool assigned): at least one h5 value per group is shared by several signatures
+            by5 = collections.Counter(hash_string(e["sig"], 5) for e in evs if e["e"] == "Hash")
+            if sum(1 for k, n in by5.items() if n > 1) < n_groups:
+                raise MachineryError("collision library %s: the generated names do not collide" % res["id"])
             n_ext += len(ext)
     n_ev = validate_hash_traces(ctx, results)
     if n_ev == 0:
@@ -574,6 +588,8 @@ def run_check(ctx):
     ctx.notes["compiles"] = sum(r["compiles"] for r in results)
     ctx.notes["modules_imported"] = sum(1 for r in results if r.get("imported"))
     ctx.notes["wrappers_checked"] = sum(r.get("wrappers", 0) for r in results)
+    ctx.notes["wrapper_names_checked"] = sum(r.get("names", 0) for r in results)
+    ctx.notes["unique_names_checked"] = sum(r.get("uniq", 0) for r in results)
     ctx.cov["exhaustive"] = True
     ctx.cov["rule"] = ("HashNames: every insertion order of the signatures under every pair of two-valued hash "
                        "functions; OptLattice: TLC builds a covering array of strength 2 over options x construct "
